@@ -981,6 +981,8 @@ def run(ctx):
         "InteropGD is judged leniently where git cannot read back its own file unchanged: dulwich must return the stored values or what git itself reads",
         "section names without '.', no include/includeIf sections, no NUL; subsections without LF",
         "the model bound to the tree is the declared variant selected by five probes of the public API (see coverage.model_variant)",
+        f"every enumerated case ran on the real dulwich writer and reader; the git binary ran on every case up to length {ctx.pick(3, 4)} and on "
+        f"every {ctx.pick('8th', '4th')} longer value (coverage.spaces.*.git_ran / dulwich_only), and on every case where dulwich's bytes differ from Config.tla's",
     ]
     return ctx.finish(exhaustive=True)      # every case of every enumerated space was executed on the real dulwich code
 
